@@ -9,15 +9,25 @@
 namespace etl::detail {
 
 template <typename T>
+struct variant_alternative_array {
+    T x[1];
+};
+
+// An alternative T is a candidate for an argument of type U only if T x[] = {declval<U>()} is well-formed,
+// i.e. the conversion is not narrowing (P0608R3, P1957R2).
+template <typename T>
 struct variant_alternative_selector_single {
-    auto operator()(T /*t*/) const -> T;
+    template <typename U>
+        requires requires { variant_alternative_array<T>{{etl::declval<U>()}}; }
+    auto operator()(T /*t*/, U&& /*u*/) const -> T;
 };
 
 template <typename... Ts>
 inline constexpr auto variant_alternative_selector = etl::overload{variant_alternative_selector_single<Ts>{}...};
 
 template <typename T, typename... Ts>
-using variant_alternative_selector_t = decltype(variant_alternative_selector<Ts...>(etl::declval<T>()));
+using variant_alternative_selector_t
+    = decltype(variant_alternative_selector<Ts...>(etl::declval<T>(), etl::declval<T>()));
 
 } // namespace etl::detail
 
